@@ -180,6 +180,12 @@ func (w *World) DoProp(st *Step) bool {
 		if st.D != 0 {
 			w.nextVal++
 			val = 1000 + w.nextVal%9000 // always four digits, unique within any realistic run
+			if st.D >= 3 {
+				// values that are "empty" without being the nil interface: they are
+				// values like any other and must be stored and returned as set
+				val = zeroishValues[pick(len(zeroishValues), st.D-3)]
+				w.probe("zeroish_value_set")
+			}
 		}
 		m := o.model()
 		if _, had := m.vals[key]; had {
@@ -412,7 +418,7 @@ func (w *World) CheckC12(op string) *Violation {
 				} else if got == nil {
 					sig = "get-lost:" + kind
 				}
-				return v(sig, "%s.GetProperty(key#%d %#v) = %v, model says %v", o.name, ki, key, got, want)
+				return v(sig, "%s.GetProperty(key#%d %#v) = %#v, model says %#v", o.name, ki, key, got, want)
 			}
 		}
 		if o.chain != nil && o.alias == nil {
@@ -470,16 +476,27 @@ func (w *World) CheckC12(op string) *Violation {
 	return nil
 }
 
-// keySig lists the keys an owner holds (by pool index), for size bookkeeping.
+// keySig lists the keys an owner holds (by pool index) and the printed width
+// class of each value, for size bookkeeping.
 func keySig(w *World, o *propOwner, tag string) string {
 	s := ""
 	for ki, key := range w.keyPool {
-		if _, ok := o.vals[key]; ok {
-			s += fmt.Sprintf("%s:%d,", tag, ki)
+		if v, ok := o.vals[key]; ok {
+			class := 0
+			for zi, z := range zeroishValues {
+				if v == z {
+					class = zi + 1
+				}
+			}
+			s += fmt.Sprintf("%s:%d/%d,", tag, ki, class)
 		}
 	}
 	return s
 }
+
+// zeroishValues are legitimate property values that a sloppy "is it nil?"
+// test would mistake for "remove".
+var zeroishValues = []interface{}{(*keyT)(nil), "", 0, false, keyA{}, (*tabular.Cell)(nil)}
 
 // sizeCheck enforces "stored state is a function of the keys held": whenever
 // an owner holds exactly the keys it held at some earlier step, the printed
